@@ -98,6 +98,10 @@ type ref struct {
 	// PIT token this forwarder attached when it forwarded that Interest": what the face put on the
 	// wire). One entry per token in a correct forwarder.
 	attached map[uint32][]recKey
+	// full: entry token -> the six bytes the upstream face was handed with the forwarded Interest
+	// (thread id + entry token). A Data echoes "the PIT token this forwarder attached" iff it carries
+	// exactly these bytes - whichever thread id this forwarder wrote into them.
+	full map[uint32][]byte
 	// deferIssue: the faces are backlogged - an upstream transmission reveals its token only when
 	// the face serialises its queue (inst.flush), not when the thread hands the packet over
 	deferIssue bool
@@ -141,7 +145,7 @@ func (r *ref) lapsed(e *entry, now time.Time) bool {
 }
 
 func newRef(cache bool) *ref {
-	return &ref{cache: cache, pend: map[recKey]*entry{}, issued: map[uint32]recKey{}, attached: map[uint32][]recKey{}, lastNonce: map[string]uint32{},
+	return &ref{cache: cache, pend: map[recKey]*entry{}, issued: map[uint32]recKey{}, attached: map[uint32][]recKey{}, full: map[uint32][]byte{}, lastNonce: map[string]uint32{},
 		seen: map[string]bool{}, deadSince: map[string]time.Time{}, csWires: map[string]map[string]bool{}}
 }
 
@@ -253,13 +257,14 @@ func (r *ref) onInterest(in *inst, o *iOp, nonce uint32, life time.Duration, tok
 			in.queue = append(in.queue, queued{send: s, key: k})
 			continue
 		}
-		if th, t, ok := fwsim.IssuedToken(s.PitToken); ok && int(th) == in.sim.ThreadID() {
+		if _, t, ok := fwsim.IssuedToken(s.PitToken); ok {
 			e := r.pend[k]
 			if e == nil {
 				e = &entry{recs: map[uint64]*rec{}}
 				r.pend[k] = e
 			}
 			r.attach(t, k, e)
+			r.full[t] = append([]byte{}, s.PitToken...)
 		}
 	}
 	defer func() {
@@ -475,7 +480,7 @@ func (r *ref) onData(in *inst, face uint64, name string, tok []byte, wire []byte
 			cands = append(cands, c)
 		}
 	}
-	if th, t, ok := fwsim.IssuedToken(tok); ok && int(th) != in.sim.ThreadID() {
+	if th, t, ok := fwsim.IssuedToken(tok); ok && int(th) != in.sim.ThreadID() && !bytes.Equal(r.full[t], tok) {
 		// six bytes, i.e. this forwarder's format, but not a token this forwarder (this thread)
 		// attached to anything, whatever the last four bytes are: it echoes nothing, and the name
 		// rule is reserved for Data that "carries no token in this forwarder's format"
